@@ -246,3 +246,54 @@ Section Real3.
     | ByGammaFit t e m => pval_gammafit ts t e m
     end.
 End Real3.
+
+(* ------------------------------------------------------------------ the real calculate_ns_grad2 bodies (llhratio.py) *)
+Section Callees.
+  Context {T : Type} (N : Num T).
+
+  (* ZeroSigH0SingleDatasetTCLLHRatio.calculate_ns_grad2: cache = the per-event
+     ns-gradients left by evaluate() (None before / after a new trial) *)
+  Definition zerosig_body (cache : option (list T)) (n_selected n_pure : Z) (ns : T) (_ : Z) : res T :=
+    match cache with
+    | None => if zs_cache_none None then Err RuntimeError else Err AssertionError
+    | Some g =>
+        if zs_cache_none (Some 0%Z) then Err RuntimeError
+        else
+          let Nprime := ofZ N (zs_Nprime n_selected) in
+          let Ntot := zs_N N Nprime (ofZ N n_pure) in
+          Ok (zs_nsgrad2 N Ntot Nprime ns (nsum N (map (zs_nsgrad2_term N) g)))
+    end.
+  Definition zerosig_callee (cache : option (list T)) (n_selected n_pure : Z) : callee T :=
+    {| c_sig := sig_ZeroSigH0SingleDatasetTCLLHRatio; c_body := zerosig_body cache n_selected n_pure |}.
+
+  (* MultiDatasetTCLLHRatio.calculate_ns_grad2: nsf = ns * f; loop over the
+     per-dataset functions with ns = nsf[j]; sum(nsgrad2j * f**2).  A weight
+     array shorter than the list: IndexError at nsf[j]; longer: the final
+     product cannot be broadcast (ValueError) *)
+  Fixpoint multi_terms (ns : T) (i : Z) (fs : list T) (subs : list (callee T)) : res (list T) :=
+    match subs, fs with
+    | [], [] => Ok []
+    | [], _ :: _ => Err ValueError
+    | _ :: _, [] => Err IndexError
+    | c :: cr, f :: fr =>
+        do b <- call_kw (c_sig c) taylor_call_kws (c_body c (md_nsf N ns f) (md_call_pidx i));
+        do r <- multi_terms ns i fr cr;
+        Ok (md_term N b f :: r)
+    end.
+  Definition multi_body (fs : list T) (subs : list (callee T)) (ns : T) (i : Z) : res T :=
+    do ts <- multi_terms ns i fs subs; Ok (nsum N ts).
+  Definition multi_callee (fs : list T) (subs : list (callee T)) : callee T :=
+    {| c_sig := sig_MultiDatasetTCLLHRatio; c_body := multi_body fs subs |}.
+
+  (* NsProfileMultiDatasetTCLLHRatio.calculate_ns_grad2 *)
+  Definition nsprofile_body (inner : callee T) (ns : T) (i : Z) : res T :=
+    if np_guard i then Err ValueError
+    else call_kw (c_sig inner) taylor_call_kws (c_body inner ns (np_call_pidx i)).
+  Definition nsprofile_callee (inner : callee T) : callee T :=
+    {| c_sig := sig_NsProfileMultiDatasetTCLLHRatio; c_body := nsprofile_body inner |}.
+
+  (* truncated_gamma_logpdf: the objective handed to scipy.optimize.minimize;
+     cdf_eta = gamma.cdf(eta, a, scale), sumlogpdf = sum(gamma.logpdf(tail, a, scale)) *)
+  Definition tg_objective (cdf_eta sumlogpdf : T) (n_above : Z) : T :=
+    tg_ret N (tg_logl_add N (tg_logl N n_above (tg_c0b N (tg_c0a N cdf_eta))) sumlogpdf).
+End Callees.
